@@ -18,6 +18,7 @@ import (
 	"strings"
 	"sync"
 	"testing"
+	"time"
 
 	"github.com/crillab/gophersat/bf"
 	"github.com/crillab/gophersat/explain"
@@ -128,7 +129,7 @@ func (t Task) run() (string, int) {
 		n := s.Enumerate(ch, nil)
 		<-done
 		return fmt.Sprintf("enumerated=%d delivered=%d valid=%v", n, got, valid), s.Stats.NbConflicts
-	case "cp-solve", "cp-solve-heavy":
+	case "cp-solve", "cp-solve-heavy", "cp-solve-wide":
 		pb := solver.ParseSliceNb(oracle.CloneCNF(t.Clauses), t.N)
 		if t.Kind == "cp-solve" {
 			pb.DetectAtMostOne()
@@ -139,6 +140,32 @@ func (t Task) run() (string, int) {
 		out := st.String()
 		if st == solver.Sat {
 			out += fmt.Sprintf(" model-valid=%v", oracle.ModelSatisfies(t.Clauses, s.Model()) < 0)
+		}
+		return out, s.Stats.NbConflicts
+	case "slow-cert-consumer":
+		// a certified solve whose certificate consumer is slow to start (as a checker working line by line may be):
+		// the solver sits blocked on its certificate channel for more than three seconds
+		s := solver.New(solver.ParseSliceNb(oracle.CloneCNF(t.Clauses), t.N))
+		s.Certified = true
+		s.CertChan = make(chan string)
+		var lines [][]int
+		done := make(chan struct{})
+		go func() {
+			time.Sleep(3300 * time.Millisecond)
+			for l := range s.CertChan {
+				if cl, err := gs.ParseCertLine(l); err == nil {
+					lines = append(lines, cl)
+				}
+			}
+			close(done)
+		}()
+		st := s.Solve()
+		close(s.CertChan)
+		<-done
+		out := st.String()
+		if st == solver.Unsat {
+			bad, refuted := oracle.CheckTrace(t.N, t.Clauses, lines)
+			out += fmt.Sprintf(" cert-valid=%v", bad < 0 && refuted)
 		}
 		return out, s.Stats.NbConflicts
 	case "opb-optimal":
@@ -399,7 +426,7 @@ func refuteAtParseTime(t *rapid.T, tk *Task) {
 }
 
 func genTask(t *rapid.T) Task {
-	kind := rapid.SampledFrom([]string{"solve", "solve", "cert-solve", "count", "enumerate-chan", "append-solve", "cp-solve", "cp-solve-heavy", "cp-solve-heavy", "solve-many", "solve-many", "opb-optimal", "optimal-chan", "wcnf", "maxsat-api", "unsat-subset", "mus-deletion", "mus-insertion", "mus-maxsat", "bf-solve", "bf-dimacs"}).Draw(t, "kind")
+	kind := rapid.SampledFrom([]string{"solve", "solve", "cert-solve", "count", "enumerate-chan", "append-solve", "cp-solve", "cp-solve-heavy", "cp-solve-heavy", "cp-solve-wide", "cp-solve-wide", "solve-many", "solve-many", "opb-optimal", "optimal-chan", "wcnf", "maxsat-api", "unsat-subset", "mus-deletion", "mus-insertion", "mus-maxsat", "bf-solve", "bf-dimacs"}).Draw(t, "kind")
 	tk := Task{Kind: kind}
 	switch kind {
 	case "solve", "cert-solve":
@@ -435,6 +462,27 @@ func genTask(t *rapid.T) Task {
 		// strategy (and reductions of its learned constraints) happen
 		// (pigeonhole formulas are easy for cutting planes; threshold 3-SAT is not: it degenerates to resolution)
 		tk.N, tk.Clauses = gen.FormulaThreshold(t, 90, 130)
+	case "cp-solve-wide":
+		// cutting planes on 26..34 independent blocks of 3-SAT over 10 variables each (260..340 variables in all):
+		// conflicts inside the blocks, on a solver with several hundred variables
+		blocks := gen.Uniform(t, 26, 34, "blocks")
+		for b := 0; b < blocks; b++ {
+			for _, cl := range gen.KSAT(t, 10, gen.Uniform(t, 36, 44, "m"), 3) {
+				sh := make([]int, len(cl))
+				for i, l := range cl {
+					if l > 0 {
+						sh[i] = l + 10*b
+					} else {
+						sh[i] = l - 10*b
+					}
+				}
+				tk.Clauses = append(tk.Clauses, sh)
+			}
+		}
+		tk.N = 10 * blocks
+		tk.Clauses = rapid.Permutation(tk.Clauses).Draw(t, "order")
+	case "slow-cert-consumer":
+		tk.N, tk.Clauses = gen.Pigeonhole(t, 3, false)
 	case "opb-optimal":
 		var cost oracle.Cost
 		tk.N, tk.Clauses, cost = gen.VertexCover(t, 8, 14)
@@ -493,7 +541,7 @@ func checkFresh(c Case, o *vf.Obs) error {
 	for _, t := range c.Tasks {
 		o.Class("task-" + t.Kind)
 		switch t.Kind {
-		case "cp-solve-heavy":
+		case "cp-solve-heavy", "cp-solve-wide":
 			heavy++
 		case "solve-many", "solve", "cert-solve", "cp-solve", "opb-optimal", "optimal-chan", "mus-deletion", "mus-insertion", "mus-maxsat", "unsat-subset":
 			others++
@@ -547,6 +595,15 @@ func genFresh(t *rapid.T) Case {
 	for i, k := 0, gen.Uniform(t, 1, 5, "k"); i < k; i++ {
 		c.Tasks = append(c.Tasks, genTask(t))
 	}
+	slowRate := 12
+	if vf.Thorough() {
+		slowRate = 4
+	}
+	if gen.Chance(t, 1, slowRate, "slowCertConsumer") {
+		tk := Task{Kind: "slow-cert-consumer"}
+		tk.N, tk.Clauses = gen.Pigeonhole(t, 3, false)
+		c.Tasks = append(c.Tasks, tk)
+	}
 	c.Procs = rapid.SampledFrom([]int{2, 4, 16}).Draw(t, "procs")
 	if gen.Chance(t, 1, 3, "low") {
 		c.NbMax = rapid.IntRange(3, 40).Draw(t, "limit")
@@ -557,9 +614,9 @@ func genFresh(t *rapid.T) Case {
 
 func init() {
 	vf.Register(vf.Sub[Case]{Name: "fresh-process", Quick: 20, Thorough: 400, Gen: genFresh, Check: checkFresh, Floor: 0.6,
-		Rule: "as concurrent-mix, but every round runs in a process of its own (the test binary re-executed on the serialised case, race detector on, its report file read by the child) with the concurrent phase first, and always holds a cutting-planes Solve on threshold 3-SAT with 100..140 variables (Luby restarts: >= 512 conflicts in most) next to 1..5 other tasks: state that the library fills on demand once per process is then first written while other goroutines use the library; non-trivial = the heavy cutting-planes task plus >= 1 other task of a kind that performs search"})
+		Rule: "as concurrent-mix, but every round runs in a process of its own (the test binary re-executed on the serialised case, race detector on, its report file read by the child) with the concurrent phase first, and always holds a cutting-planes Solve on threshold 3-SAT with 100..140 variables (Luby restarts: >= 512 conflicts in most) next to 1..5 other tasks (one round in twelve - one in four in the thorough tier - also holds a certified solve whose certificate consumer starts after 3.3 s, so that the solver sits blocked on its channel across the library's 3-second statistics tick): state that the library fills on demand once per process is then first written while other goroutines use the library; non-trivial = the heavy cutting-planes task plus >= 1 other task of a kind that performs search"})
 	vf.Register(vf.Sub[Case]{Name: "concurrent-mix", Quick: 150, Thorough: 2500, Gen: genCase, Check: check, Floor: 0.3, Journal: true,
-		Rule: "k in 2..8 data-independent tasks drawn from: Solve / certified Solve on parity and pigeonhole formulas (tens of conflicts), CountModels, Enumerate with a model channel, DetectAtMostOne + cutting-planes Solve, cutting-planes Solve on threshold 3-SAT with 90..130 variables (>= 512 conflicts, Luby restarts), a worker that builds and solves 40..200 small problems in a row, a solver that is given 1..5 more clauses (new variables included) before solving; one formula in six of the solve / count / enumerate / append tasks is refuted while it is parsed (opposite unit clauses or an empty clause), ParseOPB + Optimal, Optimal with result channel (the consumer keeps and re-reads the models) on weighted vertex cover, ParseWCNF+Optimal, maxsat.New+Solve, UnsatSubset, MUSDeletion, MUSInsertion, MUSMaxSat, bf.Solve, bf.Dimacs; GOMAXPROCS in {2,4,16}; in half of the rounds the learned-clause limit of all solvers is lowered (3..40) so that clause-database reductions happen inside the runs; in half of the rounds the concurrent phase comes first; every task's outcome (verdict, model validity, count, optimum, certificate validity, extracted subset) is first computed with the tasks run one after the other, then all tasks are started together and must return the same outcome; the binary is built with -race and the detector's report file is read after each phase: any report is a failure; non-trivial = >=2 tasks with >=1 conflict each. The schedule is not owned by the harness: each round is one sample of the interleavings"})
+		Rule: "k in 2..8 data-independent tasks drawn from: Solve / certified Solve on parity and pigeonhole formulas (tens of conflicts), CountModels, Enumerate with a model channel, DetectAtMostOne + cutting-planes Solve, cutting-planes Solve on threshold 3-SAT with 90..130 variables (>= 512 conflicts, Luby restarts), cutting-planes Solve on 26..34 independent 3-SAT blocks (260..340 variables), a worker that builds and solves 40..200 small problems in a row, a solver that is given 1..5 more clauses (new variables included) before solving; one formula in six of the solve / count / enumerate / append tasks is refuted while it is parsed (opposite unit clauses or an empty clause), ParseOPB + Optimal, Optimal with result channel (the consumer keeps and re-reads the models) on weighted vertex cover, ParseWCNF+Optimal, maxsat.New+Solve, UnsatSubset, MUSDeletion, MUSInsertion, MUSMaxSat, bf.Solve, bf.Dimacs; GOMAXPROCS in {2,4,16}; in half of the rounds the learned-clause limit of all solvers is lowered (3..40) so that clause-database reductions happen inside the runs; in half of the rounds the concurrent phase comes first; every task's outcome (verdict, model validity, count, optimum, certificate validity, extracted subset) is first computed with the tasks run one after the other, then all tasks are started together and must return the same outcome; the binary is built with -race and the detector's report file is read after each phase: any report is a failure; non-trivial = >=2 tasks with >=1 conflict each. The schedule is not owned by the harness: each round is one sample of the interleavings"})
 }
 
 func TestMain(m *testing.M)   { vf.Main(m, "C16") }
